@@ -47,29 +47,6 @@ Qed.
 Theorem diff_same_empty : forall a, diff a a = [].
 Proof. exact DiffProofs.diff_same_empty. Qed.
 
-(** Full statement (NOT proved; claimed partial):
-      apply_diff : Inv5 A -> Inv5 B -> ~ Known A B ->
-        replay (diff A B) A = (B', 0) /\ norm_set B' = norm_set B
-    where Known A B = "A or B holds, in one tcp (or udp) frontend bucket, two
-    frontends with the same address".  What is proved instead: the merge-join,
-    the empty self-difference, and that the faithful model refutes the
-    statement inside the Known class (the witness is corpus/C06/
-    tfront_same_address_two_tags.case and is replayed on the implementation on
-    every run): *)
-Theorem apply_diff_refuted_known_tfront :
-  let fp := fun _ : N => @None N in
-  let nm := fun _ : N => @None (list N) in
-  let hc := fun _ : N => true in
-  let d := dispatch fp nm hc steps_of in
-  let B := fst (d empty_state (RAddTFront false 0 (TFront 1 0))) in
-  let A := fst (d B (RAddTFront false 0 (TFront 1 1))) in
-  reachable fp nm hc steps_of A /\ reachable fp nm hc steps_of B
-  /\ bool_decide (norm_set (fst (replay fp nm hc steps_of (diff A B) A)) = norm_set B) = false.
-Proof.
-  cbv zeta. split; [apply reach_step, reach_step, reach_empty|].
-  split; [apply reach_step, reach_empty|]. vm_compute. reflexivity.
-Qed.
-
 (** non-vacuity of [diff_map_correct]: two sorted cluster lists with one key of each kind *)
 Example diff_map_nonvacuous :
   diff_map N.compare (fun a b : cluster => bool_decide (a = b))
